@@ -90,6 +90,7 @@ type ReqSpec struct {
 	Weight    int         `json:"weight,omitempty"`
 	CWeight   int         `json:"client_weight,omitempty"` // scheduler weight of the client task (default: Weight)
 	CTParam   bool        `json:"ct_param,omitempty"` // plain HTTP: the Content-Type carries a parameter ("; charset=utf-8"). Whether such a request is served or refused is not judged (content negotiation is C03/C04's); it is there for what looking its codec up does to shared state
+	LazyCtx   bool        `json:"lazy_ctx,omitempty"` // duplex script of a local handler: nobody calls stream.Context() before the two goroutines exist, and then both do (whatever the stream sets up on first use is first used from two goroutines)
 	WSClose   string      `json:"ws_close,omitempty"` // normal | none | away
 	WSDuplex  bool        `json:"ws_duplex,omitempty"` // WebSocket, two-goroutine handler: the client sends its close frame only after the handler has made all its sends (there is no half-close)
 	Backend   string      `json:"backend,omitempty"`  // proxied through this backend ("" = local)
